@@ -63,3 +63,38 @@ package socks5
 //@   ensures err == nil && pkt[3] == 1 ==> len(d.Addr.IP) == 4 && forall(k, 0, 4, d.Addr.IP[k] == pkt[4 + k]) && d.Addr.Port == int(pkt[8]) * 256 + int(pkt[9])
 //@   ensures err == nil && pkt[3] == 4 ==> len(d.Addr.IP) == 16 && forall(k, 0, 16, d.Addr.IP[k] == pkt[4 + k]) && d.Addr.Port == int(pkt[20]) * 256 + int(pkt[21])
 //@   ensures err == nil && pkt[3] == 3 ==> len(d.Addr.FQDN) == int(pkt[4]) && forall(k, 0, len(d.Addr.FQDN), d.Addr.FQDN[k] == pkt[5 + k]) && d.Addr.Port == int(pkt[5 + int(pkt[4])]) * 256 + int(pkt[6 + int(pkt[4])])
+
+//@ // The credential list that guards the listener is the configured one (C11): construction
+//@ // of the server touches only the defaults listed in its frame, and no function of this
+//@ // package assigns the list - so "credentials configured" can never silently become
+//@ // "no credentials", which handleAuthentication would answer with no-authentication.
+//@ func New(conf *Config) (s *Server, err error)
+//@   property C11
+//@   mode int
+//@   requires conf != nil
+//@   modifies conf.HandshakeTimeout, conf.Resolver, conf.Users, conf.Egress
+//@   ensures err == nil ==> s != nil && s.config == conf
+//@
+//@ struct writers Auth.IngressCredentials = {}
+//@   property C11
+
+//@ // The egress decision is reached for every well-formed request (C12): the early DIRECT
+//@ // exits of FindAction are taken only for another protocol, for fewer than the 4 fixed
+//@ // header bytes, or for another SOCKS version; a parsed CONNECT / UDP-ASSOCIATE request
+//@ // always goes through rejectPrivateAndLoopbackIPAction, whose REJECT is returned as it is.
+//@ func (s *Server) FindAction(ctx context.Context, in egress.Input) (a egress.Action)
+//@   property C12
+//@   mode int
+//@   partial
+//@   posts_only
+//@   noframe
+//@   requires s != nil
+//@   assert_at "is not supported": in.Protocol != appctlpb.ProxyProtocol_SOCKS5_PROXY_PROTOCOL
+//@   assert_at "is too short": len(in.Data) < 4
+//@   assert_at "is not socks5 protocol": len(in.Data) >= 4 && in.Data[0] != 5
+//@   assert_at "return action": action.Action == appctlpb.EgressAction_REJECT
+//@   assert_call Server.rejectPrivateAndLoopbackIPAction: arg2 != nil && (arg2.Command == 1 || arg2.Command == 3)
+//@
+//@ func parseEgressSocks5Request(data []byte) (req *model.Request, err error)
+//@   trusted parsing through bytes.Buffer/io.TeeReader is outside the subset; the request is left unconstrained
+//@   ensures err == nil ==> req != nil && fresh(req)
